@@ -113,7 +113,7 @@ def sens_case(draw, tier="quick"):
     k = draw(st.sampled_from(list(sens_el)))
     n = draw(st.integers(1, 8))
     vals = draw(st.lists(sens_el[k], min_size=n, max_size=n))
-    mode = draw(st.sampled_from(["change", "change", "swap", "permute", "table_cell"]))
+    mode = draw(st.sampled_from(["change", "change", "swap", "permute", "table_cell", "table_columns"]))
     i, j = draw(st.integers(0, n - 1)), draw(st.integers(0, n - 1))
     new = draw(sens_el[k])
     perm = draw(st.permutations(list(range(n))))
@@ -147,6 +147,31 @@ def run_sens(case, ctx):
         if len(diff) != 2 or not _hash_distinct(vals[diff[0]], vals[diff[1]]):
             return          # only transpositions are decided (a longer cycle could cancel in principle)
     ctx.ev()
+    if mode == "table_columns":
+        # element order matters at table level too: the same columns in another order, or a value moved across columns
+        a, b = list(vals), list(case["other"])
+        fa, fb = S.Vector(a).fingerprint(), S.Vector(b).fingerprint()
+        if fa == fb:
+            return
+        t1 = S.Table([S.Vector(a, name="a"), S.Vector(b, name="b")])
+        t2 = S.Table([S.Vector(b, name="a"), S.Vector(a, name="b")])
+        if t1.fingerprint() == t2.fingerprint():
+            return ctx.fail("change-not-noticed/table/column-order", f"columns {a} | {b} and {b} | {a} have the same fingerprint")
+        if _hash_distinct(a[i], b[i]) and type(a[i]) is int and type(b[i]) is int:
+            t3 = R.build_table([("a", a), ("b", b)])
+            if case["read_first"]:
+                t3.fingerprint()
+            before = fresh_fp(t3)
+            try:
+                t3[i, :] = [b[i], a[i]]          # the two cells of row i trade places
+            except Exception:  # noqa: BLE001
+                return
+            if t3.fingerprint() == before:
+                return ctx.fail("change-not-noticed/table/cells-swapped-across-columns", f"row {i}: ({a[i]}, {b[i]}) -> ({b[i]}, {a[i]})")
+            if t3.fingerprint() != fresh_fp(t3):
+                return ctx.fail("stale/table/sensitivity-row-assignment", f"{a} | {b} row {i}")
+        ctx.nontrivial()
+        return
     if mode == "table_cell":
         t = R.build_table([("a", list(vals)), ("b", list(case["other"]))])
         if case["read_first"]:
